@@ -12,8 +12,8 @@ JobAuths == {"none", "basic", "bearer", "authorization", "oauth2"}
 \* a case: alerting with / without basic auth; one or two jobs; 0-2 remote write and 0-2 remote read entries
 \* am "empty": an alerting section that is present but has no alertmanagers; rules: a rule_files section present
 Cases == [am : {"none", "basic", "empty"}, rules : BOOLEAN, jobs : (JobAuths \X JobAuths) \cup {<<a>> : a \in JobAuths},
-          rw : {<<>>} \cup {<<a>> : a \in Auths} \cup (Auths \X Auths),
-          rr : {<<>>} \cup {<<a>> : a \in Auths \ {"authorization"}} \cup (({"basic", "bearer"}) \X {"basic", "bearer"})]
+          rw : {<<>>} \cup {<<a>> : a \in Auths \cup {"userinfo"}} \cup (Auths \X Auths) \cup {<<"userinfo", "userinfo">>, <<"userinfo", "basic">>},
+          rr : {<<>>} \cup {<<a>> : a \in (Auths \ {"authorization"}) \cup {"userinfo"}} \cup (({"basic", "bearer"}) \X {"basic", "bearer"})]
 
 Slot(sec, key, val, wb) == [sec |-> sec, key |-> key, val |-> val, wasBearer |-> wb]
 AuthSlots(sec, a, tag) ==
@@ -23,6 +23,7 @@ AuthSlots(sec, a, tag) ==
     [] a = "bearer" -> <<Slot(sec, "bearer_token", tag \o "-tok", TRUE)>>
     [] a = "authorization" -> <<Slot(sec, "credentials", tag \o "-cred", FALSE)>>
     [] a = "oauth2" -> <<Slot(sec, "client_secret", tag \o "-oauth", FALSE)>>
+    [] a = "userinfo" -> <<Slot(sec, "url", tag \o "-ui", FALSE)>>      \* the password sits in the URL: http://user:<password>@host/...
 RECURSIVE Cat(_, _, _, _)
 Cat(sec, as, tag, k) == IF k > Len(as) THEN <<>> ELSE AuthSlots(sec, as[k], tag \o ToString(k)) \o Cat(sec, as, tag, k + 1)
 SlotsOf(cs) == AuthSlots("alerting", cs.am, "am") \o Cat("job", cs.jobs, "job", 1) \o Cat("rw", cs.rw, "rw", 1) \o Cat("rr", cs.rr, "rr", 1)
